@@ -9,7 +9,7 @@ import vf
 
 PROP = 'C07'
 FORMATS = ['cbor', 'msgpack', 'ubjson', 'bson']
-TIERS = {'quick': ['q', 'q4', 'tok_q', 'rep', 'tagsib'], 'thorough': ['t', 'tok_t', 'rep', 'tagsib']}
+TIERS = {'quick': ['q', 'q4', 'tok_q', 'rep', 'tagsib', 'sref'], 'thorough': ['t', 'tok_t', 'rep', 'tagsib', 'sref']}
 
 
 def cfgs(tier):
